@@ -100,7 +100,34 @@ type T15TwoEmb struct {
 }
 type EmbB struct{ X int } // makes X ambiguous at depth 1
 
+// two distinct types with the same package path and name (function-local
+// declarations) and different layouts
+func localConfA() any {
+	type Conf struct {
+		Primary string `bcl:"addr"`
+		Backup  string
+		Name    string
+	}
+	return Conf{}
+}
+func localConfB() any {
+	type Conf struct {
+		Backup  string
+		Name    string
+		X       int
+		Primary string `bcl:"addr"`
+	}
+	return Conf{}
+}
+func localConfC() any {
+	type Conf struct {
+		Primary string `bcl:"addr"`
+	}
+	return Conf{}
+}
+
 var family15 = []any{
+	localConfA(), localConfB(), localConfC(),
 	T15Unexported{}, T15EmbVal{}, T15EmbPtr{}, T15EmbHidden{}, T15EmbHiddenPtr{}, T15Shadow{}, T15NameInt{},
 	T15NameLower{}, T15Iface{}, T15Ptrs{}, T15Inner{}, T15Nested{}, T15Kinds{}, T15NamedNonStruct{}, T15TwoEmb{},
 }
